@@ -98,7 +98,7 @@ def _run(cfg):
     n, T = cfg["n"], cfg.get("T", cfg["n"])
     prm = dict(cfg.get("prm", {}))
     P = {"kind": cfg["kind"], "K": cfg["K"], "D": D, "metric": "rank", "arity": A.arity(cfg["kind"], cfg["K"], D), "algo": name, "tol": 5, "S": S, "RU": RU,
-         "hmax": prm.get("h_max", 100), "k": 0, "w2": 0, "dl": [], "r0": 0}
+         "hmax": prm.get("h_max", 100), "k": 0, "w2": 0, "dl": [], "r0": 0, "f32": 1 if cfg.get("rtype") == "f32" else 0}
     if name == "StoSOO":
         c = stosoo_consts(n, prm.get("k"), prm.get("delta"))
         if c is None or c["amb"]:
